@@ -18,6 +18,8 @@ def run(rep):
     rep.guard(m5, rep, w)
     rep.guard(m6, rep, w)
     rep.guard(m7, rep, w)
+    import cache
+    rep.guard(cache.cc1, rep, w, 'C14')     # a remembered global / attribute look-up must not outlive a write to the table it came from
     rep.guard(c08.x9, rep, w)     # the active module is re-read from the frame whenever the frame list changes (unwinding out of another module)
     rep.guard(c08.x7, rep, w)     # an ImportError that was delivered to a handler must not be followed by further pushes in the import handler
 
